@@ -1,7 +1,399 @@
-//! C10 driver (stub: not built yet).
-use crate::trace::Args;
+//! C10 driver: polynomial arithmetic over Z/nZ (arith_poly, arith_fft) on the shapes enumerated by
+//! spec/poly/PolyShapes.tla.  Every event carries operands and results as plain residues
+//! (`zn.to_int` of every coefficient); spec/poly/PolyTrace.tla recomputes the schoolbook definition.
 
-pub fn run(_args: &Args) -> i32 {
-    eprintln!("driver c10 not built yet");
-    2
+use rand::rngs::StdRng;
+use rand::Rng;
+use serde_json::{json, Value};
+
+use yamaquasi::arith_fft::{self, convolve_modn_ntt, MultiZmodP};
+use yamaquasi::arith_montgomery::{MInt, ZmodN};
+use yamaquasi::arith_poly::{self, Poly, PolyRing};
+
+use crate::gen::{gcd, rand_below, rand_bits, rng_for, Uint};
+use crate::trace::*;
+
+fn merge(mut base: Value, extra: Value) -> Value {
+    if let (Some(b), Some(e)) = (base.as_object_mut(), extra.as_object()) {
+        for (k, v) in e {
+            b.insert(k.clone(), v.clone());
+        }
+    }
+    base
+}
+
+/// odd modulus with exactly `bits` bits (2..500)
+fn modulus(rng: &mut StdRng, bits: u32) -> Uint {
+    assert!((2..=500).contains(&bits));
+    if bits == 2 {
+        return Uint::from(3u64);
+    }
+    let n = match rng.gen_range(0..6) {
+        0 => (Uint::ONE << bits) - Uint::ONE,        // all ones
+        1 => (Uint::ONE << (bits - 1)) + Uint::ONE,  // smallest
+        _ => rand_bits(rng, bits),
+    };
+    n | Uint::ONE
+}
+
+fn coefs(rng: &mut StdRng, n: &Uint, len: usize, pat: &str) -> Vec<Uint> {
+    let nm1 = *n - Uint::ONE;
+    (0..len)
+        .map(|i| match pat {
+            "zero" => Uint::ZERO,
+            "one" => Uint::ONE,
+            "nm1" => nm1,
+            "rand" => rand_below(rng, n),
+            "mixed" => match (i + len) % 5 {
+                0 => Uint::ZERO,
+                1 => Uint::ONE,
+                2 => nm1,
+                3 => rand_below(rng, n),
+                _ => nm1 - Uint::ONE.min(nm1),
+            },
+            _ => panic!("unknown coefficient pattern"),
+        })
+        .collect()
+}
+
+fn unit(rng: &mut StdRng, n: &Uint) -> Uint {
+    loop {
+        let x = rand_below(rng, n);
+        if !x.is_zero() && gcd(&x, n).is_one() {
+            return x;
+        }
+    }
+}
+
+fn mints(zn: &ZmodN, v: &[Uint]) -> Vec<MInt> {
+    v.iter().map(|x| zn.from_int(*x)).collect()
+}
+
+fn dig(v: &[Uint]) -> Value {
+    Value::from(v.iter().map(dn).collect::<Vec<_>>())
+}
+
+fn res_dig(zn: &ZmodN, v: &[MInt]) -> Value {
+    Value::from(v.iter().map(|x| dn(&zn.to_int(*x))).collect::<Vec<_>>())
+}
+
+fn pow2ceil(x: usize) -> usize {
+    x.next_power_of_two()
+}
+
+fn lens_for(pat: &str, size: usize) -> (usize, usize) {
+    let h = size / 2;
+    let (a, b) = match pat {
+        "full" => (size, size),
+        "one" => (1, size),
+        "two" => (size, 2),
+        "halfm" => (h.saturating_sub(1), h),
+        "halfp" => (h + 1, h + 1),
+        "fullm1" => (size - 1, size),
+        "nowrap" => (h, h), // la + lb - 1 < size: the cyclic product is the plain product
+        _ => panic!("unknown length pattern"),
+    };
+    (a.clamp(1, size), b.clamp(1, size))
+}
+
+fn offset_for(pat: &str, size: usize) -> usize {
+    match pat {
+        "0" => 0,
+        "1" => 1.min(size - 1),
+        "half" => size / 2,
+        "last" => size - 1,
+        _ => panic!("unknown offset pattern"),
+    }
+}
+
+// ---------------------------------------------------------------------------------------------
+
+fn ev_conv_ss(rng: &mut StdRng, out: &mut Out, case: &str, sh: &Value) {
+    let nw = sh["N"].as_u64().unwrap() as usize;
+    let logpack = sh["logpack"].as_u64().unwrap() as u32;
+    let stride = sh["stride"].as_u64().unwrap() as usize;
+    let maxbits = sh["maxbits"].as_u64().unwrap() as u32;
+    let sz = sh["sz"].as_u64().unwrap() as u32;
+    let a = 1usize << logpack;
+    let size = if a == 1 { 2usize << sz } else { a << sz };
+    let bits = if sh["small"].as_bool().unwrap() { rng.gen_range(2..=64.min(maxbits)) } else { maxbits };
+    let n = modulus(rng, bits);
+    let zn = ZmodN::new(n);
+    let (la, lb) = lens_for(sh["lens"].as_str().unwrap(), size);
+    let pat = sh["coef"].as_str().unwrap();
+    let (pa, pb) = (coefs(rng, &n, la, pat), coefs(rng, &n, lb, if pat == "zero" { "rand" } else { pat }));
+    let offset = offset_for(sh["off"].as_str().unwrap(), size);
+    let rlen = size - offset;
+    let ev = json!({"op": "conv", "alg": "ss", "case": case, "shape": sh, "N": nw, "logpack": logpack, "stride": stride, "size": size,
+                    "offset": offset, "bits": bits, "nd": n.to_string(), "n": dn(&n), "a": dig(&pa), "b": dig(&pb),
+                    "wrap": la + lb - 1 > size, "la": la, "lb": lb});
+    let (ma, mb) = (mints(&zn, &pa), mints(&zn, &pb));
+    let zn2 = zn.clone();
+    let r = guard(move || {
+        let mut res = vec![MInt::default(); rlen];
+        arith_fft::vhook::convolve_modn_raw(nw, &zn2, size, logpack, stride, &ma, &mb, &mut res, offset);
+        res
+    });
+    out.ev(match r {
+        Ok(res) => merge(ev, json!({"res": res_dig(&zn, &res)})),
+        Err(e) => merge(ev, e),
+    });
+    // the public dispatcher on the same input (the table picks its own class for this modulus and size)
+    if sh["lens"] == "full" || sh["lens"] == "nowrap" {
+        let ev = json!({"op": "conv", "alg": "ss_public", "case": format!("{}p", case), "shape": sh, "size": size, "offset": offset, "bits": bits,
+                        "nd": n.to_string(), "n": dn(&n), "a": dig(&pa), "b": dig(&pb), "wrap": la + lb - 1 > size, "la": la, "lb": lb});
+        let (ma, mb) = (mints(&zn, &pa), mints(&zn, &pb));
+        let zn2 = zn.clone();
+        let r = guard(move || {
+            let mut res = vec![MInt::default(); rlen];
+            arith_fft::convolve_modn(&zn2, size, &ma, &mb, &mut res, offset);
+            res
+        });
+        out.ev(match r {
+            Ok(res) => merge(ev, json!({"res": res_dig(&zn, &res)})),
+            Err(e) => merge(ev, e),
+        });
+    }
+}
+
+fn ev_conv_ntt(rng: &mut StdRng, out: &mut Out, case: &str, sh: &Value) {
+    let w = sh["w"].as_u64().unwrap() as i64;
+    let logsize = sh["logsize"].as_u64().unwrap() as u32;
+    let k = logsize + sh["kextra"].as_u64().unwrap() as u32;
+    // w = (2 bits + k) / 58 + 1
+    let lo = ((58 * (w - 1) - k as i64) + 1).div_euclid(2).max(2);
+    let hi = ((58 * w - 1 - k as i64).div_euclid(2)).min(500);
+    if lo > hi {
+        return;
+    }
+    let bits = match rng.gen_range(0..3) {
+        0 => lo,
+        1 => hi,
+        _ => rng.gen_range(lo..=hi),
+    } as u32;
+    let n = modulus(rng, bits);
+    let zn = ZmodN::new(n);
+    let size = 1usize << logsize;
+    let (la, lb) = lens_for(sh["lens"].as_str().unwrap(), size);
+    let pat = sh["coef"].as_str().unwrap();
+    let (pa, pb) = (coefs(rng, &n, la, pat), coefs(rng, &n, lb, if pat == "zero" { "rand" } else { pat }));
+    let offset = offset_for(sh["off"].as_str().unwrap(), size);
+    let rlen = size; // longer than size - offset: the tail must be zero
+    let (ma, mb) = (mints(&zn, &pa), mints(&zn, &pb));
+    let zn2 = zn.clone();
+    let r = guard(move || {
+        let mzp = MultiZmodP::new(&zn2, k);
+        let (ww, kk) = arith_fft::vhook::mzp_params(&mzp);
+        let mut res = vec![MInt::default(); rlen];
+        convolve_modn_ntt(&mzp, size, &ma, &mb, &mut res, offset);
+        (res, ww, kk)
+    });
+    let ev = json!({"op": "conv", "alg": "ntt", "case": case, "shape": sh, "size": size, "offset": offset, "bits": bits, "k": k,
+                    "nd": n.to_string(), "n": dn(&n), "a": dig(&pa), "b": dig(&pb), "wrap": la + lb - 1 > size, "la": la, "lb": lb});
+    out.ev(match r {
+        Ok((res, ww, kk)) => merge(ev, json!({"res": res_dig(&zn, &res), "w": ww, "mzpk": kk})),
+        Err(e) => merge(ev, e),
+    });
+}
+
+fn ev_poly(rng: &mut StdRng, out: &mut Out, case: &str, sh: &Value) {
+    let pop = sh["pop"].as_str().unwrap().to_string();
+    let bits = sh["bits"].as_u64().unwrap() as u32;
+    let len = sh["len"].as_u64().unwrap() as usize;
+    let lenpat = sh["lenpat"].as_str().unwrap();
+    let pat = sh["coef"].as_str().unwrap();
+    let ntt = sh["ntt"].as_bool().unwrap();
+    let n = modulus(rng, bits);
+    let zn = ZmodN::new(n);
+    let one = Uint::ONE % n;
+    // operands
+    let (pa, pb): (Vec<Uint>, Vec<Uint>) = match pop.as_str() {
+        "mul_karatsuba" | "mul_basic" => {
+            // documented: balanced lengths only
+            let lb = if lenpat == "m1" && len > 1 { len - 1 } else { len };
+            (coefs(rng, &n, len, pat), coefs(rng, &n, lb, pat))
+        }
+        "mul_fft" => {
+            let lb = match lenpat {
+                "m1" if len > 1 => len - 1,
+                "big" => (len / 3).max(1),
+                _ => len,
+            };
+            (coefs(rng, &n, len, pat), coefs(rng, &n, lb, pat))
+        }
+        "middle" => (coefs(rng, &n, 2 * len - 1, pat), coefs(rng, &n, len, pat)),
+        "inv" => {
+            let mut f = coefs(rng, &n, len, pat);
+            f[0] = if pat == "one" || pat == "zero" { one } else { unit(rng, &n) };
+            (f, vec![])
+        }
+        "quot" => {
+            // z = p / q modulo x^len; q[0] invertible; "m1": both start with 1 (the code's special case)
+            let mut p = coefs(rng, &n, len, pat);
+            let mut q = coefs(rng, &n, len, if pat == "zero" { "rand" } else { pat });
+            q[0] = if lenpat == "m1" || pat == "one" { one } else { unit(rng, &n) };
+            if lenpat == "m1" {
+                p[0] = one;
+            }
+            (p, q)
+        }
+        "from_roots" => (coefs(rng, &n, len, pat), vec![]),
+        "roots_eval" => {
+            let la = match lenpat {
+                "m1" if len > 1 => len - 1,
+                "big" => 2 * len + 3,
+                _ => len,
+            };
+            (coefs(rng, &n, la, pat), coefs(rng, &n, len, if pat == "zero" { "mixed" } else { pat }))
+        }
+        "multi_eval" => {
+            // documented domain: at least as many points as coefficients, whole chunks
+            let alen = match lenpat {
+                "m1" => pow2ceil(len),
+                "big" => 2 * pow2ceil(len),
+                _ => len,
+            };
+            (coefs(rng, &n, len, pat), coefs(rng, &n, alen, if pat == "zero" { "mixed" } else { pat }))
+        }
+        _ => panic!("unknown poly op"),
+    };
+    let ringsize = if ntt { pow2ceil(pa.len().max(pb.len())).max(32) } else { 16 };
+    let ev = json!({"op": match pop.as_str() { "mul_karatsuba" | "mul_fft" | "mul_basic" => "mul", o => o }, "alg": pop, "case": case,
+                    "shape": sh, "bits": bits, "nd": n.to_string(), "n": dn(&n), "a": dig(&pa), "b": dig(&pb), "ringsize": ringsize,
+                    "la": pa.len(), "lb": pb.len()});
+    let (ma, mb) = (mints(&zn, &pa), mints(&zn, &pb));
+    let zn2 = zn.clone();
+    let r = guard(move || {
+        let zr = PolyRing::new(&zn2, ringsize);
+        let fft = arith_poly::vhook::has_ntt(&zr);
+        let res: Vec<MInt> = match pop.as_str() {
+            "mul_karatsuba" => Poly::mul_karatsuba(&Poly::new(&zr, ma), &Poly::new(&zr, mb)).c,
+            "mul_basic" => Poly::mul_basic(&Poly::new(&zr, ma), &Poly::new(&zr, mb)).c,
+            "mul_fft" => Poly::mul_fft(&Poly::new(&zr, ma), &Poly::new(&zr, mb)).c,
+            "middle" => Poly::middlemul(&Poly::new(&zr, ma), &Poly::new(&zr, mb)).c,
+            "inv" => arith_poly::vhook::inv_mod_xn(&zr, &ma),
+            "quot" => Poly::div_mod_xn(&Poly::new(&zr, ma), &Poly::new(&zr, mb)).c,
+            "from_roots" => Poly::from_roots(&zr, &ma).c,
+            "roots_eval" => Poly::roots_eval(&zn2, &ma, &mb),
+            "multi_eval" => Poly::new(&zr, ma).multi_eval(&mb),
+            _ => unreachable!(),
+        };
+        (res, fft)
+    });
+    out.ev(match r {
+        Ok((res, fft)) => merge(ev, json!({"res": res_dig(&zn, &res), "fft": fft})),
+        Err(e) => merge(ev, e),
+    });
+}
+
+// ---------------------------------------------------------------------------------------------
+// integers modulo 2^(64 N) + 1
+// ---------------------------------------------------------------------------------------------
+
+fn fpat(rng: &mut StdRng, nw: usize, pat: &str) -> Vec<u64> {
+    // N low words followed by the top word (normalised: top = 1 only with all low words 0)
+    let mut v = vec![0u64; nw + 1];
+    match pat {
+        "zero" => {}
+        "one" => v[0] = 1,
+        "top" => v[nw] = 1,
+        "max" => v[..nw].fill(!0),
+        "rand" => v[..nw].iter_mut().for_each(|x| *x = rng.gen()),
+        "half" => v[nw - 1] = 1 << 63,
+        "lowones" => {
+            let k = rng.gen_range(1..nw);
+            v[..k].fill(!0);
+            v[nw - 1] = rng.gen();
+        }
+        _ => panic!("unknown FInt pattern"),
+    }
+    v
+}
+
+fn fint_ev(out: &mut Out, case: &str, sh: &Value, nw: usize, fop: &str, a: &[u64], b: &[u64], s: u32, k: u32) {
+    let ev = json!({"op": "fint", "case": case, "shape": sh, "N": nw, "fop": fop, "a": digits_from_words(a), "b": digits_from_words(b), "s": s, "k": k});
+    let (aa, bb, f) = (a.to_vec(), b.to_vec(), fop.to_string());
+    let r = guard(move || arith_fft::vhook::fint_op(nw, &f, &aa, &bb, s, k));
+    out.ev(match r {
+        Ok(rs) => {
+            let mut x = json!({"r1": digits_from_words(&rs[0])});
+            if rs.len() > 1 {
+                x["r2"] = digits_from_words(&rs[1]);
+            }
+            merge(ev, x)
+        }
+        Err(e) => merge(ev, e),
+    });
+}
+
+fn ev_fint(rng: &mut StdRng, out: &mut Out, case: &str, sh: &Value) {
+    let nw = sh["N"].as_u64().unwrap() as usize;
+    let fop = sh["fop"].as_str().unwrap();
+    let a = fpat(rng, nw, sh["pa"].as_str().unwrap());
+    let b = fpat(rng, nw, sh["pb"].as_str().unwrap());
+    let m = 64 * nw as u32;
+    match fop {
+        "add" | "sub" | "mul" | "butterfly" => fint_ev(out, case, sh, nw, fop, &a, &b, 0, 0),
+        "shl" | "shr" => {
+            let shifts = [0, 1, 63, 64, 65, m / 2, m - 1, m, m + 1, m + 64, 2 * m - 64, 2 * m - 1, rng.gen_range(0..2 * m), rng.gen_range(0..2 * m)];
+            let pick = if nw <= 32 { shifts.len() } else { 4 };
+            let start = rng.gen_range(0..shifts.len());
+            for t in 0..pick {
+                let s = shifts[(start + t * 3) % shifts.len()];
+                fint_ev(out, &format!("{}.{}", case, t), sh, nw, fop, &a, &b, s, 0);
+            }
+        }
+        "twiddle" => {
+            // omega^i for a primitive 2^k-th root of unity, 2^k <= 256 N (odd i with 2^k = 256 N use sqrt(2))
+            let kmax = (256 * nw).trailing_zeros();
+            let ks = [1, 2, kmax / 2, kmax - 2, kmax - 1, kmax, kmax, kmax];
+            let pick = if nw <= 32 { ks.len() } else { 3 };
+            for t in 0..pick {
+                let k = ks[ks.len() - 1 - t];
+                let i = match t % 4 {
+                    0 => rng.gen_range(0..1u32 << k) | 1,
+                    1 => rng.gen_range(0..1u32 << k),
+                    2 => (1u32 << k) - 1,
+                    _ => 1u32 << (k - 1),
+                };
+                fint_ev(out, &format!("{}.{}", case, t), sh, nw, fop, &a, &b, i, k);
+            }
+        }
+        "reduce" => {
+            // low words + small top word, not normalised
+            for (t, top) in [0u64, 1, 2, 3, 4, 1 << 20].iter().enumerate() {
+                let mut x = a.clone();
+                x[nw] = *top;
+                if t % 2 == 1 {
+                    x[0] = rng.gen_range(0..8);
+                    if sh["pa"] == "zero" || sh["pa"] == "one" {
+                        x[1..nw].fill(0);
+                    }
+                }
+                fint_ev(out, &format!("{}.{}", case, t), sh, nw, fop, &x, &b, 0, 0);
+            }
+        }
+        _ => panic!("unknown FInt op"),
+    }
+}
+
+pub fn run(args: &Args) -> i32 {
+    let seed = arg_u64(args, "seed", 1);
+    let shapes = read_ndjson(arg_str(args, "shapes", "shapes.ndjson"));
+    let mut out = Out::create(arg_str(args, "out", "trace.ndjson"));
+    let mut rng = rng_for(seed, "c10");
+    let x = (Uint::ONE << 200) + Uint::from(777u64);
+    out.ev(json!({"op": "selftest", "case": "selftest", "x": dn(&x), "c": 777, "xd": x.to_string()}));
+    for (si, sh) in shapes.iter().enumerate() {
+        let case = format!("s{}", si);
+        match sh["op"].as_str().unwrap() {
+            "fint" => ev_fint(&mut rng, &mut out, &case, sh),
+            "conv_ss" => ev_conv_ss(&mut rng, &mut out, &case, sh),
+            "conv_ntt" => ev_conv_ntt(&mut rng, &mut out, &case, sh),
+            "poly" => ev_poly(&mut rng, &mut out, &case, sh),
+            o => panic!("unknown shape op {}", o),
+        }
+    }
+    out.finish();
+    0
 }
